@@ -26,7 +26,12 @@ func randPrintable(r *core.Rng) string {
 	if s[0] == '#' {
 		s = "x" + s
 	}
-	return s + fmt.Sprintf(" <%d>", r.Intn(1000000))
+	s += fmt.Sprintf(" <%d>", r.Intn(1000000))
+	if r.Chance(1, 5) {
+		// texts that look like the library's or the runtime's own conditions
+		s += []string{": context canceled", "rpc error: code = Canceled desc = context canceled", ": context deadline exceeded", ": EOF", " stream reached EOF", ": invalid connection"}[r.Intn(6)]
+	}
+	return s
 }
 
 func checkC06(c *core.Ctx) {
